@@ -240,6 +240,46 @@ func makeIntrinsics() map[string]intrinsic {
 		return tuple{regexMatch(st, r, a[1].(*Str)), iface{}}
 	}
 	m["(*regexp.Regexp).String"] = func(st *State, fr *frame, a []value, cc *ssa.CallCommon) value { return StrConst(regexOf(a[0]).pat) }
+	// side store of the harness (bank model): part of the environment's collections, hence snapshotted / branched with them
+	sideStore := func(st *State, ctx value) *collStore {
+		old := st.curEnv
+		st.curEnv = envOf(ctx)
+		c := st.coll("verif-side")
+		st.curEnv = old
+		return c
+	}
+	m[V+"SideGet"] = func(st *State, fr *frame, a []value, cc *ssa.CallCommon) value {
+		key, ok := a[1].(*Str).Concrete()
+		if !ok {
+			panic(pathEnd{kind: "unsupported", msg: "side store with a symbolic key"})
+		}
+		c := sideStore(st, a[0])
+		for i, k := range c.keys {
+			if ks, _ := k.(*Str).Concrete(); ks == key {
+				return c.vals[i]
+			}
+		}
+		return &bigV{v: IntConst(big.NewInt(0))}
+	}
+	m[V+"SideSet"] = func(st *State, fr *frame, a []value, cc *ssa.CallCommon) value {
+		key, ok := a[1].(*Str).Concrete()
+		if !ok {
+			panic(pathEnd{kind: "unsupported", msg: "side store with a symbolic key"})
+		}
+		v := a[2].(*bigV)
+		if v.isNil {
+			panic(pathEnd{kind: "panic", msg: "side store: nil integer"})
+		}
+		c := sideStore(st, a[0])
+		for i, k := range c.keys {
+			if ks, _ := k.(*Str).Concrete(); ks == key {
+				c.vals[i] = v
+				return nil
+			}
+		}
+		c.keys, c.orig, c.vals = append(c.keys, StrConst(key)), append(c.orig, nil), append(c.vals, v)
+		return nil
+	}
 	m[V+"Aborts"] = func(st *State, fr *frame, a []value, cc *ssa.CallCommon) value {
 		cl := a[0].(*closure)
 		aborted := false
@@ -291,7 +331,7 @@ func makeIntrinsics() map[string]intrinsic {
 		var names []string
 		pre := fmt.Sprintf("%d/", envOf(a[0]))
 		for n := range st.colls {
-			if strings.HasPrefix(n, pre) {
+			if strings.HasPrefix(n, pre) && !strings.HasSuffix(n, "/verif-side") {
 				names = append(names, n)
 			}
 		}
